@@ -33,6 +33,10 @@ CHECKS = {
   "runtime monitoring: before/after repository snapshots around every generated GraphQL mutation / upload request, mutation list from schema introspection",
   "An in-process handler assembled like the web UI serves a real repository; every mutation field found by introspection is sent with generated valid and invalid arguments with and without an authenticated user; the monitor compares refs, object files, stored operations (independent reader) and cache answers before and after, and the response with the modelled effect.",
   "Modelled mutation table covers the 9 mutations of the pinned schema; unmodelled ones get the no-user check only. Dirty text inputs are only checked for kind/author, not payload equality."),
+ "C18": ("exploration",
+  "runtime monitoring: stress workloads with client-boundary history recording; offline exactly-once/no-phantom/chain checker, linearizability check (exact decider + porcupine), Go race detector, goroutine-dump deadlock classifier, cache-vs-rebuild comparator",
+  "2..16 goroutines run generated mixes of cache calls on shared and private bugs in a child process (varying GOMAXPROCS, cache size, loaded/unloaded start, yield/delay injection at hook points between critical sections); every call is recorded at the client boundary; after the run an independent reader checks that every acknowledged operation is stored exactly once in a valid single chain, the per-bug append/read history is linearizable, the cache agrees with a rebuild; crashes and deadlocks are classified from the child's death / goroutine dump; a race build of the same workload reports data races by signature family.",
+  "Schedules explored are those the Go scheduler produced in the executed runs (fingerprints in the evidence). Race signatures are matched against known findings by access-pair family."),
  "C20": ("exploration",
   "runtime monitoring: Relay reference-model oracle over executed pagination calls, page walks and GraphQL requests",
   "Every generated connection function is executed on all small inputs (lengths, page sizes, cursor positions incl. foreign and malformed; bounded part exhaustive) and each observable result is compared with a Relay reference model; forward/backward page walks and end-to-end GraphQL walks replay what a client does.",
